@@ -8,6 +8,9 @@ COMMON_TRUSTED = [
     "the sidecar contracts in /verif/props/*.py state the property as DESIGN.md section 5 reads it",
 ]
 
+FLOAT_ASSUME = (
+    "binary64 operations on symbolic operands are an UNINTERPRETED rounding of the exact real result, of which only sign preservation (no underflow), identity on 0 and 'never crosses an integer of magnitude <= 2**53 that the exact value does not cross' are assumed; int()/round() are exact on the rounded value; a spec that says 't*rate' means the same float product as the code computes (no algebraic identity of the reals is available); overflow/underflow not modelled")
+
 TOK_ASSUME = [
     "the validator's verdict on the k-th frame is an arbitrary Boolean V(k) (covers stateful validators); "
     "its truthiness is taken as a bool",
@@ -21,8 +24,7 @@ TOK_ASSUME = [
 TOK_UNITS = ["lemmas", "ctor", "process", "post_process", "iter_tokens", "tokenize"]
 
 REG_ASSUME = [
-    "float arithmetic is read as real arithmetic ('real' float mode): a*sr, t/1000, len/(sr*sw*ch) are exact reals; "
-    "int()/round() are exact truncation / round-half-even on that real",
+    FLOAT_ASSUME,
     "bytes and lists are modelled as values (length, index -> element); @dataclass(frozen=True) semantics assumed",
     "regions are well-formed by construction (len(data) == nsamples*sw*ch with sr, sw, ch >= 1), which is what the "
     "constructor contract (unit post_init) establishes",
@@ -35,7 +37,7 @@ RD_ASSUME = [
     "nothing remains, AudioIOError when not open; rewind(): back to 0); every concrete source kind is verified to "
     "implement it (C11) and each wrapper is verified to implement it again for its own view, which is what composes the layers",
     "hop_size = int(hop_dur*sr) >= 1 (a hop shorter than one sample is outside the statement; noted in DESIGN C10)",
-    "float products read as real arithmetic with exact int()/round()",
+    FLOAT_ASSUME,
     "generator semantics of Python: each next() runs the body to the following yield; a finished generator keeps "
     "raising StopIteration",
     "recorder cache: the list of blocks is abstracted to (length, concatenation) with append/join as the ghost updates",
@@ -46,7 +48,7 @@ SPLIT_ASSUME = [
     "split() is verified against the interface of the reader (block_dur, sr, sw, ch, open, read) and the constructor "
     "contracts of AudioReader (C10), AudioEnergyValidator (C07), StreamTokenizer (C02) and tokenize() (C08)",
     "**kwargs is modelled as a finite map over the documented keys, each with a symbolic presence flag",
-    "float arithmetic outside _duration_to_nb_windows is read as real arithmetic",
+    "outside _duration_to_nb_windows: " + FLOAT_ASSUME,
     "generator expressions are lazy, order-preserving maps (Python semantics, assumed)",
 ]
 
@@ -97,7 +99,8 @@ REGISTRY = {
                 "the last sentence of C05 (regions are the tokenizer segmentation of the per-window decisions) is the "
                 "composition of the split wiring proved here with C01-C04 (tokenizer) and C07 (validator), whose units and "
                 "obligations are part of this check",
-                "start*rate == a*B and end - start == duration hold over the reals (float products read as real arithmetic)"]},
+                "start == a * block_dur and end == start + duration are the float operations the code performs (equal computations); "
+                "start*rate == a*B is a lemma over the reals only (blocks_lemma)", FLOAT_ASSUME]},
     "C06": {"parts": [{"module": "props.split", "units": ["dtnw", "split"]},
                       {"module": "props.readers", "units": ["fixed"]},
                       # the event-level sentences are the tokenizer's length and silence bounds at the proved window counts
@@ -157,7 +160,7 @@ REGISTRY = {
                 "the file holds a whole number of samples",
                 "all finite operation histories follow by induction from the per-operation contracts, each stated "
                 "over the whole abstract view (audio, consumed, open)",
-                "float products in position_s / position_ms setters read as real arithmetic, int() exact truncation",
+                "position_s / position_ms setters: " + FLOAT_ASSUME,
                 "StdinAudioSource: sizes None / negative are outside the statement (read(None) raises TypeError in the real code)",
                 "exact polynomial rewriting (pyvc/nl.py) and instantiated multiplication-monotonicity lemmas"]},
     "C12": {"parts": [{"module": "props.workers", "units": ["worker_run", "worker_misc", "notify", "tokenizer_run", "tokenizer_init_read",
@@ -187,7 +190,7 @@ REGISTRY = {
                 "the option table is read from the literal add_argument calls in main()'s AST",
                 "format strings for the duration formatter are case-split over 16 representatives (bounded on strings, incl. unknown "
                 "directives, duplicates, %S/%I combined with other text); durations (float or int, >= 0) are symbolic",
-                "seconds*1000 is read as real arithmetic, int() as exact truncation: %I and the field directives use this same "
+                "seconds*1000 is the float product the code computes (uninterpreted rounding), int() exact truncation: %I and the field directives use this same "
                 "whole-millisecond value",
                 "the end-to-end sentence is the composition: option table -> make_kwargs -> initialize_workers -> TokenizerWorker "
                 "(C12: detections are split(**kwargs) on the reader) -> PrintWorker line; files of -o/-O/-j are C13",
